@@ -12,6 +12,7 @@ mod r1;
 mod sig;
 mod simphys;
 mod simcpu;
+mod constctx;
 mod c03;
 mod c04;
 mod c05;
